@@ -7,7 +7,7 @@
    extraction step and every threshold test; the concrete instance (integer signals, toy envelopes,
    the real stopping formulas) is shown to meet the hypotheses at the end. *)
 From Coq Require Import ZArith List Bool Lia.
-From EmdV Require Import lib.NpLite model.Extrema model.SiftCore model.Toys proofs.SiftCoreFacts.
+From EmdV Require Import lib.NpLite model.Extrema model.SiftCore model.Toys model.Envelope proofs.SiftCoreFacts proofs.EnvelopeFacts.
 Import ListNotations.
 
 Section C01.
@@ -116,6 +116,31 @@ Theorem no_envelope_iff_few_extrema : forall x p m,
   get_padded_extrema x p m = NoExtrema <-> (length (fst (extrema m x)) <= 1)%nat.
 Proof. exact SiftCoreFacts.no_envelope_iff_few_extrema. Qed.
 
+(* ---- the concrete extrema layer under the abstract [envs] oracle --------------------------------------
+   get_next_imf's envelope pair (model/Envelope.v: real extrema detection and padding of model/Extrema.v, the
+   spline/PCHIP evaluation an oracle) is undefined exactly when the signal has fewer than two strict interior
+   maxima or fewer than two strict interior minima ... *)
+Theorem no_envelope_pair_iff : forall (A : Type) (interp : list Z -> list Z -> Z -> A) p x, (1 <= p)%nat ->
+  (envelope_pair A interp p x = None <->
+   (length (find_maxima x) <= 1)%nat \/ (length (find_maxima (map Z.opp x)) <= 1)%nat).
+Proof. exact EnvelopeFacts.no_envelope_pair_iff. Qed.
+
+(* ... so for EVERY interpolant, step operator, stopping oracle and threshold test: when the classic sift over
+   integer-valued signals ends because the extraction cleared its flag (no energy option), its final component is
+   a non-oscillatory residual *)
+Theorem concrete_sift_final_nonoscillatory :
+  forall (interp : list Z -> list Z -> Z -> Z) p vzero vadd vsub vstep vavg stop_sd stop_ril energy method max_iters small
+         fuel cap X imfs e,
+  (1 <= p)%nat -> (method = Fixed -> (1 <= max_iters)%nat) ->
+  peel_loop (list Z) vzero vadd vsub small
+            (fun _ _ => get_next_imf (list Z) vsub vstep vavg (envelope_pair Z interp p) stop_sd stop_ril energy
+                                     method max_iters false)
+            fuel cap X [] = (imfs, e) ->
+  flag_stop e = true ->
+  exists init last_, imfs = init ++ [last_] /\
+    ((length (find_maxima last_) <= 1)%nat \/ (length (find_maxima (map Z.opp last_)) <= 1)%nat).
+Proof. exact EnvelopeFacts.concrete_sift_final_nonoscillatory. Qed.
+
 (* ---- the code before the repair (finding C01-partial-sift-residual-dropped) ------------------
    get_next_imf cleared the flag whenever ANY iterate lost its extrema and returned that partly
    sifted iterate: the sift then stopped and the remaining residual was dropped. *)
@@ -143,3 +168,5 @@ Print Assumptions toy_sift_complete.
 Print Assumptions no_envelope_iff_few_extrema.
 Print Assumptions sift_complete_v0_refuted.
 Print Assumptions c01_premises_hold.
+Print Assumptions no_envelope_pair_iff.
+Print Assumptions concrete_sift_final_nonoscillatory.
